@@ -1,0 +1,13 @@
+//go:build verif
+
+package tacquito
+
+// VerifHook, when set by a verification harness, receives one event per
+// instrumented step. It is only compiled in with the "verif" build tag.
+var VerifHook func(ev string, args ...interface{})
+
+func vhook(ev string, args ...interface{}) {
+	if h := VerifHook; h != nil {
+		h(ev, args...)
+	}
+}
